@@ -294,6 +294,10 @@ var corpusSeeds = []string{
 	`x := import ( "i" ) ; y := import ( "i" )`,
 	`x := import ( "im" ) ; y := import ( "im" )`,
 	`x := import ( "u" )`,
+	// custom import values after constants that de-duplication removes (index re-mapping of kept constants)
+	`a := "k" ; b := "k" ; c := import ( "s" ) ; d := "k"`,
+	`a := 1 ; b := 1 ; c := import ( "i" ) ; d := import ( "u" ) ; e := 1.5 ; f := 1.5`,
+	`x := import ( "im" ) ; y := import ( "im" ) ; z := import ( "s" ) ; w := 'c' ; v := 'c'`,
 	`x := import ( "bad" )`,
 	`x := import ( "cyc" )`,
 	`x := import ( "m" )`,
